@@ -131,3 +131,90 @@ def ob_slot_arithmetic(run, oid):
                     elif hi is not None:
                         bad.append("%s is bounded" % fn)
         o.check(ok and not bad, "Slot::%s|range" % fn, "Slot::%s yields exactly %s, in order, unfiltered" % (fn, "first..=last slot of the window" if hi_f else "self+1.."), b.span, {"problems": bad[:3]})
+
+
+FR = K.A + "types::fraction::Fraction::"
+ST = K.A + "types::stake::Stake"
+
+
+def ob_value_types(run, oid):
+    """Fraction::is_met and the Stake operators, by value"""
+    prog = run.program("lib")
+    o = run.ob(oid, "the stake arithmetic everything rests on is exact: Fraction::is_met(v, t) <=> v/t >= n/d for all magnitudes (no rounding, no overflow), Stake -, * and div_ceil compute "
+                    "what they say (and subtraction below zero panics rather than wrapping)",
+               "every threshold test is a call of is_met and every stake total a sum / difference of Stake values: a saturating, wrapping or rounding variant moves all thresholds for large "
+               "or boundary stakes only", floor=4)
+    b = prog.body(FR + "is_met")
+    if b is None:
+        o.missing("Fraction::is_met")
+    else:
+        rows = [r for r in paths.decision_table(b, prog) if r[1] is not None]
+        fracs = [(1, 5), (2, 5), (3, 5), (4, 5), (1, 3), (2, 3), (1, 1), (0, 1), (7, 9)]
+        totals = [1, 4, 5, 10, 11, 100, 10 ** 17, 3 * 10 ** 18, 2 ** 63, U64MAX - 1, U64MAX]
+        bad = []
+        und = None
+        n = 0
+        for (fn_, fd) in fracs:
+            for tot in totals:
+                edge = -(-tot * fn_ // fd)
+                for v in sorted(set(x for x in (0, 1, edge - 1, edge, edge + 1, tot // 2, tot - 1, tot) if 0 <= x <= U64MAX)):
+                    def env(t, v=v, tot=tot, fn_=fn_, fd=fd):
+                        if isinstance(t, tuple) and t:
+                            if t[0] == "param" and t[1] == 2:
+                                return v
+                            if t[0] == "param" and t[1] == 3:
+                                return tot
+                            if t[0] == "field" and isinstance(t[1], tuple) and t[1][:2] == ("param", 1):
+                                return fn_ if t[2] == "numerator" else (fd if t[2] == "denominator" else None)
+                        return None
+                    try:
+                        got = [TE.ev(ret, env) for atoms, ret, _bl in rows
+                               if all(TE.ev_atom(a[0], a[1], env) == a[2] for a in atoms if not (D.is_structural_atom(a) and a[0] != "bool"))]
+                    except TE.Unknown as e:
+                        und = str(e)[:100]
+                        break
+                    except TE.Overflow as e:
+                        bad.append("is_met(%d/%d; %d, %d) panics (%s)" % (fn_, fd, v, tot, e))
+                        continue
+                    n += 1
+                    want = v * fd >= tot * fn_
+                    if not got or any(bool(g) != want for g in got):
+                        bad.append("is_met(%d/%d; %d, %d) = %s, exact answer %s" % (fn_, fd, v, tot, got[:1], want))
+                if und:
+                    break
+            if und:
+                break
+        if und:
+            o.fail("Fraction::is_met|by-value|undecided", "could not be evaluated (%s): failing closed" % und, b.span)
+        else:
+            o.check(not bad and n > 300, "Fraction::is_met|by-value", "is_met agrees with the exact rational comparison on %d (fraction, value, total) triples incl. totals up to u64::MAX" % n, b.span, {"mismatches": bad[:3]})
+    ops = {"<%s as core::ops::arith::Sub>::sub" % ST: ("sub", lambda a, c: a - c if a >= c else None),
+           "<%s as core::ops::arith::Mul<u64>>::mul" % ST: ("mul", lambda a, c: a * c if a * c <= U64MAX else None),
+           ST + "::div_ceil": ("div_ceil", lambda a, c: -(-a // c) if c else None)}
+    vals = [0, 1, 2, 5, 7, 10 ** 9, 2 ** 32, 2 ** 63, U64MAX - 1, U64MAX]
+    for fn, (nm, f) in ops.items():
+        if prog.body(fn) is None:
+            o.missing("Stake " + nm)
+            continue
+        bad = []
+        und = None
+        n = 0
+        for a in vals:
+            for c in vals:
+                want = f(a, c)
+                try:
+                    got = eval_fn(prog, fn, [a, c])
+                except TE.Unknown as e:
+                    und = str(e)[:100]
+                    break
+                except TE.Overflow:
+                    got = None
+                n += 1
+                if got != want:
+                    bad.append("Stake(%d) %s %d = %s, expected %s" % (a, nm, c, got, "a panic" if want is None else want))
+            if und:
+                break
+        if und:
+            o.fail("Stake::%s|by-value|undecided" % nm, "could not be evaluated (%s): failing closed" % und, prog.body(fn).span)
+        else:
+            o.check(not bad, "Stake::%s|by-value" % nm, "Stake %s computes the exact result on %d operand pairs and panics exactly where the exact result does not fit" % (nm, n), prog.body(fn).span, {"mismatches": bad[:3]})
